@@ -145,6 +145,22 @@ fn real_main() {
             let prop = args[2].clone();
             let oracle_out = args[3].clone();
             let mut ctx = Ctx { prop, line_no: 0, line: String::new(), oracle: Vec::new() };
+            // watchdog: an op that does not come back (a loop that no longer terminates in the code under test) must
+            // not hang the check - it is reported against its op line, like a fatal signal
+            let limit_s: u64 = std::env::var("VERIF_OP_TIMEOUT_S").ok().and_then(|v| v.parse().ok()).unwrap_or(60);
+            std::thread::spawn(move || {
+                let mut seen = (0usize, std::time::Instant::now());
+                loop {
+                    std::thread::sleep(std::time::Duration::from_millis(250));
+                    let cur = guard::CUR_LINE.load(std::sync::atomic::Ordering::Relaxed);
+                    if cur != seen.0 {
+                        seen = (cur, std::time::Instant::now());
+                    } else if cur != 0 && seen.1.elapsed().as_secs() >= limit_s {
+                        eprintln!("FATAL-TIMEOUT the op did not finish within {} s (the code under test no longer terminates, or is pathologically slow) while evaluating op line {}", limit_s, cur);
+                        std::process::exit(102);
+                    }
+                }
+            });
             let stdin = std::io::stdin();
             let stdout = std::io::stdout();
             let mut w = std::io::BufWriter::new(stdout.lock());
@@ -163,6 +179,7 @@ fn real_main() {
                 }
                 writeln!(w, "{}", a).unwrap();
             }
+            guard::CUR_LINE.store(0, std::sync::atomic::Ordering::Relaxed);
             w.flush().unwrap();
             std::fs::write(oracle_out, ctx.oracle.join("\n")).unwrap();
         }
